@@ -1,5 +1,5 @@
 (* WaterBounds.v — C06 lemmas: per-layer upper and lower bounds of the Water kernel model over R. *)
-From Coq Require Import ZArith Reals List Bool Lia Lra.
+From Coq Require Import ZArith Reals List Bool Lia Lra Floats.
 From Hermes Require Import Num RUtil WaterModel WaterProofs.
 Import ListNotations.
 Local Open Scope R_scope.
@@ -355,4 +355,29 @@ Proof.
   intros L first w' i Hi. subst w'. unfold set_fc_gw. rsimp. cbn [truncZ RNum]. fold first. split; intros H.
   - apply set_fc_gw_below; lia.
   - apply set_fc_gw_above; lia.
+Qed.
+
+(* ---------------- binary64: the overflow clamp is exact ---------------- *)
+(* At binary64, for EVERY float input (NaN included): after the cascade each layer's storage is either exactly the
+   clamp value W*DZ or a value x with not (W < x/DZ) — and x/DZ is literally the water content the code reports.
+   No rounding can push a non-clamped layer above its field capacity. *)
+Lemma cascade_upper_binary64 (ls : list (float * float)) : forall carry hc q1s,
+  length q1s = length ls ->
+  Forall2 (fun w1' (p : float * float) =>
+             w1' = PrimFloat.mul (snd p) (@DZ float FloatNum) \/
+             PrimFloat.ltb (snd p) (PrimFloat.div w1' (@DZ float FloatNum)) = false)
+          (fst (@cascade float FloatNum carry hc ls q1s)) ls.
+Proof.
+  induction ls as [|[w1 w] rest IH]; intros carry hc q1s Hlen.
+  - destruct q1s; cbn; constructor.
+  - destruct q1s as [|q qrest]; [cbn in Hlen; lia|].
+    cbn [cascade]. unfold gtb. cbn [ltb FloatNum div mul sub add].
+    set (w1c := if hc then PrimFloat.add w1 carry else w1).
+    destruct (PrimFloat.ltb w (PrimFloat.div w1c DZ)) eqn:E.
+    + specialize (IH (PrimFloat.sub w1c (PrimFloat.mul w DZ)) true qrest ltac:(cbn in Hlen; lia)).
+      destruct (cascade (PrimFloat.sub w1c (PrimFloat.mul w DZ)) true rest qrest) as [ws qs]. cbn [fst snd] in *.
+      constructor; [left; reflexivity | exact IH].
+    + specialize (IH (@zero float FloatNum) false qrest ltac:(cbn in Hlen; lia)).
+      destruct (cascade zero false rest qrest) as [ws qs]. cbn [fst snd] in *.
+      constructor; [right; exact E | exact IH].
 Qed.
